@@ -339,6 +339,10 @@ func (ci *crdIpam) ConfigurePool(floatIPs []*FloatingIPPool) error {
 			len(ci.unallocatedFIPs), len(ci.allocatedFIPs))
 	}()
 	sort.Sort(FloatingIPSlice(floatIPs))
+	// hold the lock while listing, otherwise an allocation or release which happens between listing and
+	// swapping the cache is lost in memory while it is persisted in the store
+	ci.cacheLock.Lock()
+	defer ci.cacheLock.Unlock()
 	ips, err := ci.listFloatingIPs()
 	if err != nil {
 		glog.Errorf("fail to list floatIP %v", err)
@@ -376,8 +380,6 @@ func (ci *crdIpam) ConfigurePool(floatIPs []*FloatingIPPool) error {
 			deletingIPs = append(deletingIPs, ip.Name)
 		}
 	}
-	ci.cacheLock.Lock()
-	defer ci.cacheLock.Unlock()
 	ci.FloatingIPs = floatIPs
 	ci.allocatedFIPs = tmpCacheAllocated
 	if len(deletingIPs) > 0 {
